@@ -139,6 +139,8 @@ func (e *Engine) Apply(op *Op) error {
 		return e.dropDetached(op)
 	case "nop":
 		return nil
+	case "badrange", "badid", "badreopen", "mbadset":
+		return e.rejectedOp(op)
 	}
 	return fmt.Errorf("verif: unknown op %q", op.K)
 }
@@ -838,5 +840,127 @@ func (e *Engine) withIsolation(n *Node, f func() error) error {
 		}
 	}
 	e.Stats.label("isolation_checked")
+	return nil
+}
+
+
+// rejectedOp: requests that must be refused because of their arguments (C18).
+func (e *Engine) rejectedOp(op *Op) error {
+	e.Stats.label("rejected")
+	switch op.K {
+	case "badrange":
+		n := e.pick(op.T, false, true)
+		if n == nil {
+			e.Stats.Skipped++
+			return nil
+		}
+		if err := e.handle(n, 0); err != nil {
+			return err
+		}
+		cnt := uint64(len(n.Elems))
+		var s, t uint64
+		wantOOB := true
+		switch op.P % 4 {
+		case 0:
+			s, t = 0, cnt+1+op.P%5
+		case 1:
+			s, t = cnt+1, cnt+1
+		case 2:
+			s, t = cnt+2, cnt
+		default:
+			if cnt < 2 {
+				s, t = cnt+1, cnt+3
+			} else {
+				s, t = cnt, cnt-1-(op.P/4)%(cnt-1)
+				wantOOB = false
+			}
+		}
+		nop := func(atree.Value) (bool, error) { return true, nil }
+		for _, err := range []error{n.HA.IterateRange(s, t, nop), n.HA.IterateReadOnlyRange(s, t, nop)} {
+			if wantOOB {
+				var oob *atree.SliceOutOfBoundsError
+				if err == nil || !errors.As(err, &oob) || !isUser(err) || isFatal(err) {
+					return e.viol("range [%d,%d) of %d: expected a user SliceOutOfBoundsError, got %v", s, t, cnt, err)
+				}
+			} else {
+				var inv *atree.InvalidSliceIndexError
+				if err == nil || !errors.As(err, &inv) || !isUser(err) || isFatal(err) {
+					return e.viol("range [%d,%d) of %d: expected a user InvalidSliceIndexError, got %v", s, t, cnt, err)
+				}
+			}
+		}
+		return nil
+	case "badid":
+		var sid *atree.SlabIDError
+		check := func(what string, err error) error {
+			if err == nil || !errors.As(err, &sid) || !isFatal(err) || isUser(err) {
+				return e.viol("%s with the undefined identifier: expected a fatal SlabIDError, got %v", what, err)
+			}
+			return nil
+		}
+		_, err := atree.NewArrayWithRootID(e.St, atree.SlabIDUndefined)
+		if err := check("NewArrayWithRootID", err); err != nil {
+			return err
+		}
+		_, err = atree.NewMapWithRootID(e.St, atree.SlabIDUndefined, atree.NewDefaultDigesterBuilder())
+		if err := check("NewMapWithRootID", err); err != nil {
+			return err
+		}
+		if err := check("Store", e.St.Store(atree.SlabIDUndefined, nil)); err != nil {
+			return err
+		}
+		return check("Remove", e.St.Remove(atree.SlabIDUndefined))
+	case "badreopen":
+		// opening a slab that is not the root of a value
+		w := newWalk(e.St)
+		for _, r := range e.Roots {
+			if _, err := w.visit(r.Root, nil, false); err != nil {
+				return e.viol("%v", err)
+			}
+		}
+		var cands []*SI
+		for _, si := range w.Order {
+			if si.ViaIndex {
+				cands = append(cands, si)
+			}
+		}
+		if len(cands) == 0 {
+			e.Stats.Skipped++
+			return nil
+		}
+		si := cands[int(op.P%uint64(len(cands)))]
+		var err error
+		if si.Kind == kArrData || si.Kind == kArrMeta {
+			_, err = atree.NewArrayWithRootID(e.St, si.ID)
+		} else {
+			_, err = atree.NewMapWithRootID(e.St, si.ID, atree.NewDefaultDigesterBuilder())
+		}
+		var nv *atree.NotValueError
+		if err == nil || !errors.As(err, &nv) || !isFatal(err) || isUser(err) {
+			return e.viol("opening non-root slab %s as a value: expected a fatal NotValueError, got %v", si.ID, err)
+		}
+		e.Stats.label("rejected_reopen_of_non_root")
+		return nil
+	case "mbadset":
+		// an insert that the collision limit must refuse
+		for _, n := range e.allNodes() {
+			if !n.IsMap || n.Dig == nil || n.Parent != nil {
+				continue
+			}
+			if err := e.handle(n, 0); err != nil {
+				return err
+			}
+			u := uint64(e.Cfg.Keys)
+			for i := uint64(0); i < u; i++ {
+				km := e.key((op.P + i) % u)
+				if _, present := n.Ents[canonKey(km)]; present || !e.expectRefusal(n, km) {
+					continue
+				}
+				return e.mapSet(n, km, op.V, false) // mapSet checks the refusal
+			}
+		}
+		e.Stats.Skipped++
+		return nil
+	}
 	return nil
 }
